@@ -72,7 +72,8 @@ func (r *bucketRegistry) getCachedBucket(name, url string, mode OpenMode) (*Buck
 }
 
 // unregisterBucket removes a Bucket from the registry. Must be called before closing.
-func (r *bucketRegistry) unregisterBucket(bucket *Bucket) {
+// Returns true if that was the last reference to a persistent bucket, whose store the caller must now shut down.
+func (r *bucketRegistry) unregisterBucket(bucket *Bucket) (shutDownStore bool) {
 	name := bucket.name
 	debug("UNregisterBucket %v %s at %s", bucket, name, bucket.url)
 	r.lock.Lock()
@@ -81,24 +82,24 @@ func (r *bucketRegistry) unregisterBucket(bucket *Bucket) {
 	if registered := r.buckets[name]; registered == nil || registered.sqliteDB != bucket.sqliteDB {
 		// This handle's bucket has been deleted (and the name may have been re-used by a new
 		// bucket since): there is no reference of ours left to release.
-		return
+		return false
 	}
 	bucketCount := r.bucketCount[name]
 	if bucketCount < 0 {
 		warn("unregisterBucket couldn't find %v", bucket)
-		return
+		return false
 	}
 	if bucketCount == 1 {
 		delete(r.bucketCount, name)
 		// if an in memory bucket, don't close the sqlite db since it will vanish
 		if !bucket.inMemory {
-			bucket._closeSqliteDB()
 			delete(r.buckets, name)
+			return true
 		}
-		return
+		return false
 	}
 	r.bucketCount[name] -= 1
-	return
+	return false
 }
 
 // deleteBucket deletes a bucket from the registry and disk. Closes all existing buckets of the same name.
@@ -138,8 +139,8 @@ func registerBucket(bucket *Bucket) (bool, *Bucket) {
 }
 
 // unregisterBucket removes a Bucket from the registry. Must be called before closing.
-func unregisterBucket(bucket *Bucket) {
-	cluster.unregisterBucket(bucket)
+func unregisterBucket(bucket *Bucket) (shutDownStore bool) {
+	return cluster.unregisterBucket(bucket)
 }
 
 // deleteBucket will delete a bucket from the registry and from disk.
